@@ -461,46 +461,46 @@ structure FrKn (K : Kind) {α : Type} (m : M α) : Prop where
   h : ∀ s a s', m s = .ok (a, s') → KindsNew K s s'
 
 /-- the node store is not touched -/
-structure NS {α : Type} (m : M α) : Prop where
+structure NSj {α : Type} (m : M α) : Prop where
   h : ∀ s a s', m s = .ok (a, s') → s'.nodes = s.nodes
 
-theorem NS.frkn {K : Kind} {α} {m : M α} (h : NS m) : FrKn K m := ⟨fun s a s' e => KindsNew.of_nodes (h.h s a s' e)⟩
+theorem NSj.frkn {K : Kind} {α} {m : M α} (h : NSj m) : FrKn K m := ⟨fun s a s' e => KindsNew.of_nodes (h.h s a s' e)⟩
 
-theorem NS.pure {α} (a : α) : NS (pure a : M α) := ⟨fun _ _ _ h => by cases h; rfl⟩
-theorem NS.bind {α β} {m : M α} {f : α → M β} (hm : NS m) (hf : ∀ a, NS (f a)) : NS (m >>= f) := by
+theorem NSj.pure {α} (a : α) : NSj (pure a : M α) := ⟨fun _ _ _ h => by cases h; rfl⟩
+theorem NSj.bind {α β} {m : M α} {f : α → M β} (hm : NSj m) (hf : ∀ a, NSj (f a)) : NSj (m >>= f) := by
   constructor
   intro s b s' h
   obtain ⟨a, s1, h1, k1⟩ := obind_ok h
   rw [(hf a).h s1 b s' k1, hm.h s a s1 h1]
-theorem NS.ite {α} {c : Prop} [Decidable c] {a b : M α} (ha : NS a) (hb : NS b) : NS (if c then a else b) := by
+theorem NSj.ite {α} {c : Prop} [Decidable c] {a b : M α} (ha : NSj a) (hb : NSj b) : NSj (if c then a else b) := by
   split <;> assumption
-theorem NS.throw {α} (e : Panic) : NS (throw e : M α) := ⟨fun _ _ _ h => by cases h⟩
-theorem getNode_ns (id : Nat) : NS (getNode id) := ⟨fun _ _ _ h => by cases h; rfl⟩
-theorem getPc_ns : NS getPc := ⟨fun _ _ _ h => by cases h; rfl⟩
-theorem source_ns : NS source := ⟨fun _ _ _ h => by cases h; rfl⟩
-theorem position_ns : NS position := ⟨fun _ _ _ h => by cases h; rfl⟩
-theorem modPc_ns (f : Ctx → Ctx) : NS (modPc f) := ⟨fun _ _ _ h => by cases h; rfl⟩
-theorem setPosition_ns (l : Int) (p : Segment) : NS (setPosition l p) := ⟨fun _ _ _ h => by cases h; rfl⟩
-theorem lastOpenedBlock_ns : NS lastOpenedBlock := ⟨fun _ _ _ h => by obtain ⟨_, hs⟩ := olastOpenedBlock_ok h; rw [hs]⟩
-theorem liftE_ns {α} (e : Except Panic α) : NS (liftE e) := ⟨fun _ _ _ h => by obtain ⟨_, hs⟩ := oliftE_ok h; rw [hs]⟩
-theorem peekLine_ns : NS peekLine := by
+theorem NSj.throw {α} (e : Panic) : NSj (throw e : M α) := ⟨fun _ _ _ h => by cases h⟩
+theorem getNode_ns (id : Nat) : NSj (getNode id) := ⟨fun _ _ _ h => by cases h; rfl⟩
+theorem getPc_ns : NSj getPc := ⟨fun _ _ _ h => by cases h; rfl⟩
+theorem source_ns : NSj source := ⟨fun _ _ _ h => by cases h; rfl⟩
+theorem position_ns : NSj position := ⟨fun _ _ _ h => by cases h; rfl⟩
+theorem modPc_ns (f : Ctx → Ctx) : NSj (modPc f) := ⟨fun _ _ _ h => by cases h; rfl⟩
+theorem setPosition_ns (l : Int) (p : Segment) : NSj (setPosition l p) := ⟨fun _ _ _ h => by cases h; rfl⟩
+theorem lastOpenedBlock_ns : NSj lastOpenedBlock := ⟨fun _ _ _ h => by obtain ⟨_, hs⟩ := olastOpenedBlock_ok h; rw [hs]⟩
+theorem liftE_ns {α} (e : Except Panic α) : NSj (liftE e) := ⟨fun _ _ _ h => by obtain ⟨_, hs⟩ := oliftE_ok h; rw [hs]⟩
+theorem peekLine_ns : NSj peekLine := by
   constructor
   intro s a s' h
   unfold GM.Blocks.peekLine at h
   cases hf : s.r.peekLine with
   | error e => simp [hf, bind, Except.bind] at h
   | ok p => simp only [hf, bind, Except.bind, Pure.pure, Except.pure] at h; cases h; rfl
-theorem lineOffset_ns : NS lineOffset := ⟨fun s a s' h => by obtain ⟨r', hs⟩ := olineOffset_ok h; rw [hs]⟩
-theorem advance_ns (n : Int) : NS (advance n) := ⟨fun s a s' h => by obtain ⟨r', hs⟩ := oadvance_ok h; rw [hs]⟩
-theorem advanceAndSetPadding_ns (n p : Int) : NS (advanceAndSetPadding n p) :=
+theorem lineOffset_ns : NSj lineOffset := ⟨fun s a s' h => by obtain ⟨r', hs⟩ := olineOffset_ok h; rw [hs]⟩
+theorem advance_ns (n : Int) : NSj (advance n) := ⟨fun s a s' h => by obtain ⟨r', hs⟩ := oadvance_ok h; rw [hs]⟩
+theorem advanceAndSetPadding_ns (n p : Int) : NSj (advanceAndSetPadding n p) :=
   ⟨fun s a s' h => by obtain ⟨r', hs⟩ := oadvanceAndSetPadding_ok h; rw [hs]⟩
 
 macro "ns_step" : tactic =>
   `(tactic| first
-    | with_reducible apply NS.pure
-    | with_reducible apply NS.bind
-    | with_reducible apply NS.ite
-    | with_reducible apply NS.throw
+    | with_reducible apply NSj.pure
+    | with_reducible apply NSj.bind
+    | with_reducible apply NSj.ite
+    | with_reducible apply NSj.throw
     | with_reducible apply getNode_ns
     | with_reducible apply getPc_ns
     | with_reducible apply source_ns
@@ -519,7 +519,7 @@ macro "ns_step" : tactic =>
 
 macro "ns" : tactic => `(tactic| repeat' ns_step)
 
-theorem FrKn.pure {K : Kind} {α} (a : α) : FrKn K (pure a : M α) := (NS.pure a).frkn
+theorem FrKn.pure {K : Kind} {α} (a : α) : FrKn K (pure a : M α) := (NSj.pure a).frkn
 theorem FrKn.bind {K : Kind} {α β} {m : M α} {f : α → M β} (hm : FrKn K m) (hf : ∀ a, FrKn K (f a)) : FrKn K (m >>= f) := by
   constructor
   intro s b s' h
@@ -553,9 +553,9 @@ theorem newNode_frkn {K : Kind} (n : Node) (hn : n.kind = K) : FrKn K (newNode n
   have : i = s.nodes.length := by rw [hsn] at h2; simp at h2; omega
   rw [this, GM.Blocks.L.nd_append_self hsn]; exact hn
 
-theorem blockquoteProcess_ns : NS blockquoteProcess := by unfold blockquoteProcess; ns
-theorem lastOffset_ns (n : Nat) : NS (lastOffset n) := by unfold lastOffset; ns
-theorem preserveLeadingTab_ns (seg : Segment) (ind : Int) : NS (preserveLeadingTab seg ind) := by
+theorem blockquoteProcess_ns : NSj blockquoteProcess := by unfold blockquoteProcess; ns
+theorem lastOffset_ns (n : Nat) : NSj (lastOffset n) := by unfold lastOffset; ns
+theorem preserveLeadingTab_ns (seg : Segment) (ind : Int) : NSj (preserveLeadingTab seg ind) := by
   unfold preserveLeadingTab; ns
 
 macro "frkn_step" : tactic =>
@@ -567,21 +567,21 @@ macro "frkn_step" : tactic =>
     | with_reducible apply appendLine_frkn
     | (with_reducible apply modNode_frkn; intro _; rfl)
     | (with_reducible apply newNode_frkn; first | rfl | exact rfl | decide | (simp only [BP.kind]))
-    | with_reducible exact NS.frkn (getNode_ns _)
-    | with_reducible exact NS.frkn getPc_ns
-    | with_reducible exact NS.frkn source_ns
-    | with_reducible exact NS.frkn position_ns
-    | with_reducible exact NS.frkn (modPc_ns _)
-    | with_reducible exact NS.frkn (setPosition_ns _ _)
-    | with_reducible exact NS.frkn lastOpenedBlock_ns
-    | with_reducible exact NS.frkn (liftE_ns _)
-    | with_reducible exact NS.frkn peekLine_ns
-    | with_reducible exact NS.frkn lineOffset_ns
-    | with_reducible exact NS.frkn (advance_ns _)
-    | with_reducible exact NS.frkn (advanceAndSetPadding_ns _ _)
-    | with_reducible exact NS.frkn blockquoteProcess_ns
-    | with_reducible exact NS.frkn (lastOffset_ns _)
-    | with_reducible exact NS.frkn (preserveLeadingTab_ns _ _)
+    | with_reducible exact NSj.frkn (getNode_ns _)
+    | with_reducible exact NSj.frkn getPc_ns
+    | with_reducible exact NSj.frkn source_ns
+    | with_reducible exact NSj.frkn position_ns
+    | with_reducible exact NSj.frkn (modPc_ns _)
+    | with_reducible exact NSj.frkn (setPosition_ns _ _)
+    | with_reducible exact NSj.frkn lastOpenedBlock_ns
+    | with_reducible exact NSj.frkn (liftE_ns _)
+    | with_reducible exact NSj.frkn peekLine_ns
+    | with_reducible exact NSj.frkn lineOffset_ns
+    | with_reducible exact NSj.frkn (advance_ns _)
+    | with_reducible exact NSj.frkn (advanceAndSetPadding_ns _ _)
+    | with_reducible exact NSj.frkn blockquoteProcess_ns
+    | with_reducible exact NSj.frkn (lastOffset_ns _)
+    | with_reducible exact NSj.frkn (preserveLeadingTab_ns _ _)
     | apply_hyp
     | intro _
     | split)
@@ -610,7 +610,7 @@ theorem bpOpen_frkn (bp : BP) (p : Nat) : FrKn bp.kind (bpOpen bp p) := by
 structure LM {α : Type} (m : M α) : Prop where
   h : ∀ s a s', m s = .ok (a, s') → s.nodes.length ≤ s'.nodes.length
 
-theorem LM.of_ns {α} {m : M α} (h : NS m) : LM m := ⟨fun s a s' e => by rw [h.h s a s' e]; exact Nat.le_refl _⟩
+theorem LM.of_ns {α} {m : M α} (h : NSj m) : LM m := ⟨fun s a s' e => by rw [h.h s a s' e]; exact Nat.le_refl _⟩
 theorem LM.of_frkn {K : Kind} {α} {m : M α} (h : FrKn K m) : LM m := ⟨fun s a s' e => (h.h s a s' e).1⟩
 
 /-- the node `Open` answers is a node it has just built -/
@@ -626,7 +626,7 @@ theorem RFr.pure_none (st : PState) : RFr (pure (none, st)) :=
 theorem RFr.throw (e : Panic) : RFr (throw e) := ⟨fun _ _ _ h => by cases h⟩
 theorem RFr.ite {c : Prop} [Decidable c] {a b : M (Option Nat × PState)} (ha : RFr a) (hb : RFr b) :
     RFr (if c then a else b) := by split <;> assumption
-theorem RFr.bind_ns {α} {m : M α} {f : α → M (Option Nat × PState)} (hm : NS m) (hf : ∀ x, RFr (f x)) :
+theorem RFr.bind_ns {α} {m : M α} {f : α → M (Option Nat × PState)} (hm : NSj m) (hf : ∀ x, RFr (f x)) :
     RFr (m >>= f) := by
   constructor
   intro s b s' h id hid
